@@ -269,6 +269,27 @@ def run(ctx):
                 r6.ok(key, "`%s`: %s" % (name, why))
     r6.floor(1, "split-point loop")
 
+    # ---------------- R7 what the look-up itself memoises in the learned map is the bare joined text
+    r7 = chk.rule("C09.R7", "values the look-up inserts into the learned map contain no wrapping punctuation of the current composition",
+                  "the store holds candidate texts for words; a derived choice is found again whatever punctuation surrounds the word later")
+    if len(lk) == 1:
+        from . import roles as _roles
+        lb3 = _roles.ib(prog, lk[0])
+        ins = [(bb, t) for (bb, t) in lb3.calls() if callee_name(t).endswith("HashMap::<K, V, S, A>::insert") and phonetic.STRMAP_TY in t["args"][0]["place"]["ty"]]
+        for n_, (bb, t) in enumerate(ins):
+            val = lb3.expr_operand(t["args"][2])
+            wrap_reads = [x for x in val.walk() if x.k == "call" and acc.get(x.a[0]) in ("preceding", "trailing") and isinstance(x.a[2], int)
+                          and (x.a[2] == bb or bb in lb3.reachable_from(x.a[2]))]
+            key = "memo-value@%s#%d" % (lk[0].split("::")[-1], n_)
+            if wrap_reads:
+                r7.violation(key, "the text stored for the word includes %s() of the current composition: the entry is later compared with candidates wrapped in "
+                             "other punctuation and never matches (and it reaches the file with the next save)" % acc.get(wrap_reads[0].a[0]), site_of(lb3, bb))
+            else:
+                r7.ok(key, "stored before the wrapping parts are added")
+        if not ins:
+            r7.ok("memo-value", "the look-up does not write the learned map")
+    r7.floor(1, "look-up")
+
     # ---------------- R5 alphabet agreement
     r5 = chk.rule("C09.R5", "every character the wrapping stage can add to a candidate is stripped by the splitter",
                   "the stored text is the bare candidate, so it is found again")
